@@ -180,7 +180,168 @@ struct HasHess<smooth::Bundle<Gs...>> : std::bool_constant<(HasHess<Gs>::value &
 template<class G>
 constexpr bool is_eigen_v = std::is_base_of_v<Eigen::MatrixBase<G>, G>;
 
-// ------------------------------------------------------------------ per-group emission
+// ------------------------------------------------------------------ evaluation of one request
+// Flattening is row-major (the protocol's convention).
+template<class S>
+struct Args
+{
+  const std::vector<S> & x;
+  size_t off = 0;
+  bool ok    = true;
+  template<class V>
+  V vec()
+  {
+    V v;
+    if (off + size_t(v.size()) > x.size()) {
+      ok = false;
+      v.setZero();
+      return v;
+    }
+    for (Eigen::Index i = 0; i < v.rows(); ++i)
+      for (Eigen::Index j = 0; j < v.cols(); ++j) v(i, j) = x[off++];
+    return v;
+  }
+  bool done() const { return ok && off == x.size(); }
+};
+
+template<class S, class D>
+void put(std::vector<S> & out, const Eigen::MatrixBase<D> & m)
+{
+  for (Eigen::Index i = 0; i < m.rows(); ++i)
+    for (Eigen::Index j = 0; j < m.cols(); ++j) out.push_back(S(m(i, j)));
+}
+
+template<class G>
+G from_coeffs(const Eigen::Matrix<typename smooth::liebase_info<G>::Scalar, G::RepSize, 1> & c)
+{
+  G g;
+  g.coeffs() = c;
+  return g;
+}
+
+// Evaluate `op` of the LieGroupBase interface of G on the flat inputs x.  Returns false when the
+// op is not available for G or the arity is wrong.
+template<class G>
+bool eval_group(const std::string & op, const std::vector<typename smooth::liebase_info<G>::Scalar> & x,
+  std::vector<typename smooth::liebase_info<G>::Scalar> & out)
+{
+  using S       = typename smooth::liebase_info<G>::Scalar;
+  using Tangent = typename G::Tangent;
+  using Coef    = Eigen::Matrix<S, G::RepSize, 1>;
+  Args<S> A{x};
+  if (op == "identity") {
+    put(out, G::Identity().coeffs());
+  } else if (op == "matrix") {
+    put(out, from_coeffs<G>(A.template vec<Coef>()).matrix());
+  } else if (op == "compose") {
+    const G g1 = from_coeffs<G>(A.template vec<Coef>()), g2 = from_coeffs<G>(A.template vec<Coef>());
+    put(out, (g1 * g2).coeffs());
+  } else if (op == "compose3l") {  // (g1 g2) g3
+    const G g1 = from_coeffs<G>(A.template vec<Coef>()), g2 = from_coeffs<G>(A.template vec<Coef>()),
+            g3 = from_coeffs<G>(A.template vec<Coef>());
+    put(out, ((g1 * g2) * g3).coeffs());
+  } else if (op == "compose3r") {  // g1 (g2 g3)
+    const G g1 = from_coeffs<G>(A.template vec<Coef>()), g2 = from_coeffs<G>(A.template vec<Coef>()),
+            g3 = from_coeffs<G>(A.template vec<Coef>());
+    put(out, (g1 * (g2 * g3)).coeffs());
+  } else if (op == "inverse") {
+    put(out, from_coeffs<G>(A.template vec<Coef>()).inverse().coeffs());
+  } else if (op == "log") {
+    put(out, from_coeffs<G>(A.template vec<Coef>()).log());
+  } else if (op == "exp") {
+    put(out, G::exp(A.template vec<Tangent>()).coeffs());
+  } else if (op == "logexp") {  // log(exp(a))
+    put(out, G::exp(A.template vec<Tangent>()).log());
+  } else if (op == "hat") {
+    put(out, G::hat(A.template vec<Tangent>()));
+  } else if (op == "vee") {
+    put(out, G::vee(A.template vec<typename G::Matrix>()));
+  } else if (op == "Ad") {
+    put(out, from_coeffs<G>(A.template vec<Coef>()).Ad());
+  } else if (op == "Adexp") {  // Ad(exp(a))
+    put(out, G::exp(A.template vec<Tangent>()).Ad());
+  } else if (op == "ad") {
+    put(out, G::ad(A.template vec<Tangent>()));
+  } else if (op == "bracket") {
+    const Tangent a = A.template vec<Tangent>(), b = A.template vec<Tangent>();
+    put(out, G::lie_bracket(a, b));
+  } else if (op == "dr_exp") {
+    put(out, G::dr_exp(A.template vec<Tangent>()));
+  } else if (op == "dl_exp") {
+    put(out, G::dl_exp(A.template vec<Tangent>()));
+  } else if (op == "dr_expinv") {
+    put(out, G::dr_expinv(A.template vec<Tangent>()));
+  } else if (op == "dl_expinv") {
+    put(out, G::dl_expinv(A.template vec<Tangent>()));
+  } else if (op == "rplus") {
+    const G g = from_coeffs<G>(A.template vec<Coef>());
+    put(out, (g + A.template vec<Tangent>()).coeffs());
+  } else if (op == "rminus") {
+    const G g1 = from_coeffs<G>(A.template vec<Coef>()), g2 = from_coeffs<G>(A.template vec<Coef>());
+    put(out, g1 - g2);
+  } else if (op == "dr_rminus") {
+    put(out, smooth::dr_rminus<G>(A.template vec<Tangent>()));
+  } else if (op == "dr_rminus_sqn") {
+    put(out, smooth::dr_rminus_squarednorm<G>(A.template vec<Tangent>()));
+  } else if constexpr (HasHess<G>::value) {
+    if (op == "d2r_exp") {
+      put(out, G::d2r_exp(A.template vec<Tangent>()));
+    } else if (op == "d2l_exp") {
+      put(out, G::d2l_exp(A.template vec<Tangent>()));
+    } else if (op == "d2r_expinv") {
+      put(out, G::d2r_expinv(A.template vec<Tangent>()));
+    } else if (op == "d2l_expinv") {
+      put(out, G::d2l_expinv(A.template vec<Tangent>()));
+    } else if (op == "d2r_rminus") {
+      put(out, smooth::d2r_rminus<G>(A.template vec<Tangent>()));
+    } else if (op == "d2r_rminus_sqn") {
+      put(out, smooth::d2r_rminus_squarednorm<G>(A.template vec<Tangent>()));
+    } else {
+      return false;
+    }
+  } else {
+    return false;
+  }
+  return A.done();
+}
+
+// group actions through the public classes
+template<class G, int NV>
+bool eval_action(const std::string & op, const std::vector<typename G::Scalar> & x, std::vector<typename G::Scalar> & out)
+{
+  using S    = typename G::Scalar;
+  using Coef = Eigen::Matrix<S, G::RepSize, 1>;
+  Args<S> A{x};
+  if (op == "act") {
+    const G g = from_coeffs<G>(A.template vec<Coef>());
+    const Eigen::Matrix<S, NV, 1> v = A.template vec<Eigen::Matrix<S, NV, 1>>();
+    put(out, g * v);
+  } else if (op == "dr_action") {
+    if constexpr (!std::is_same_v<G, smooth::SO2<S>> && !std::is_same_v<G, smooth::SE2<S>> && !std::is_same_v<G, smooth::C1<S>>) {
+      const G g = from_coeffs<G>(A.template vec<Coef>());
+      const Eigen::Matrix<S, NV, 1> v = A.template vec<Eigen::Matrix<S, NV, 1>>();
+      put(out, g.dr_action(v));
+    } else {
+      return false;
+    }
+  } else {
+    return false;
+  }
+  return A.done();
+}
+
+template<class S>
+void emit(FILE * f, const char * op, const std::string & grp, const std::vector<S> & x, const std::vector<S> & out, const char * tag)
+{
+  std::fprintf(f, "%s %s %s", op, grp.c_str(), Prec<S>::name);
+  for (S v : x) Prec<S>::put(f, v);
+  std::fprintf(f, " |");
+  for (S v : out) Prec<S>::put(f, v);
+  if (tag) std::fprintf(f, " # %s", tag);
+  std::fprintf(f, "\n");
+}
+
+// ------------------------------------------------------------------ per-group generation
 template<class G>
 struct Emit
 {
@@ -194,7 +355,7 @@ struct Emit
   const char * tag(int i) { return angle_stratum_name(i % N_ANGLE_STRATA); }
 
   // group elements: exp of a stratified tangent, sometimes composed (so that products with
-  // negative real part before canonicalisation occur), plus hand-made special elements
+  // negative real part before canonicalisation occur) or inverted
   G elem(int i)
   {
     G g = G::exp(tan(i, 0));
@@ -203,58 +364,64 @@ struct Emit
     return g;
   }
 
+  template<class... Ts>
+  void go(const char * op, const char * tg, const Ts &... parts)
+  {
+    std::vector<S> x, out;
+    (put(x, parts), ...);
+    if (eval_group<G>(op, x, out)) emit<S>(f, op, gname, x, out, tg);
+  }
+
   void run(int n)
   {
-    // identity
-    {
-      Line<S> L(f, "identity", gname);
-      L.bar().v(G::Identity().coeffs()).end();
-    }
+    go("identity", "");
     for (int i = 0; i < n; ++i) {
-      const G g1 = elem(i), g2 = elem(n + 3 * i + 1);
+      const G g1 = elem(i), g2 = elem(n + 3 * i + 1), g3 = elem(2 * n + 5 * i + 2);
       const Tangent a = tan(i, 0), al = tan(i, 1), b = tan(i + 5, 0), c = tan(i + 2, 0);
-      Line<S>(f, "matrix", gname).v(g1.coeffs()).bar().v(g1.matrix()).end(tag(i));
-      Line<S>(f, "compose", gname).v(g1.coeffs()).v(g2.coeffs()).bar().v((g1 * g2).coeffs()).end(tag(i));
-      Line<S>(f, "inverse", gname).v(g1.coeffs()).bar().v(g1.inverse().coeffs()).end(tag(i));
+      const char * t = tag(i);
+      go("matrix", t, g1.coeffs());
+      go("compose", t, g1.coeffs(), g2.coeffs());
+      go("compose3l", t, g1.coeffs(), g2.coeffs(), g3.coeffs());
+      go("compose3r", t, g1.coeffs(), g2.coeffs(), g3.coeffs());
+      go("inverse", t, g1.coeffs());
       {
         const G gl = G::exp(al);
-        Line<S>(f, "log", gname).v(gl.coeffs()).bar().v(gl.log()).end(tag(i));
+        go("log", t, gl.coeffs());
         const G gp = gl * G::exp(tan(i + 3, 1) * S(0.3));
-        Line<S>(f, "log", gname).v(gp.coeffs()).bar().v(gp.log()).end("product");
+        go("log", "product", gp.coeffs());
       }
-      Line<S>(f, "exp", gname).v(a).bar().v(G::exp(a).coeffs()).end(tag(i));
-      Line<S>(f, "hat", gname).v(a).bar().v(G::hat(a)).end(tag(i));
+      go("exp", t, a);
+      go("logexp", t, al);
+      go("hat", t, a);
       {
         const typename G::Matrix A = G::hat(a);
-        Line<S>(f, "vee", gname).v(A).bar().v(G::vee(A)).end(tag(i));
+        go("vee", t, A);
       }
-      Line<S>(f, "Ad", gname).v(g1.coeffs()).bar().v(g1.Ad()).end(tag(i));
-      Line<S>(f, "ad", gname).v(a).bar().v(G::ad(a)).end(tag(i));
-      Line<S>(f, "bracket", gname).v(a).v(b).bar().v(G::lie_bracket(a, b)).end(tag(i));
-      Line<S>(f, "dr_exp", gname).v(a).bar().v(G::dr_exp(a)).end(tag(i));
-      Line<S>(f, "dl_exp", gname).v(a).bar().v(G::dl_exp(a)).end(tag(i));
-      Line<S>(f, "dr_expinv", gname).v(al).bar().v(G::dr_expinv(al)).end(tag(i));
-      Line<S>(f, "dl_expinv", gname).v(al).bar().v(G::dl_expinv(al)).end(tag(i));
-      Line<S>(f, "rplus", gname).v(g1.coeffs()).v(c).bar().v((g1 + c).coeffs()).end(tag(i));
+      go("Ad", t, g1.coeffs());
+      go("Adexp", t, al);
+      go("ad", t, a);
+      go("bracket", t, a, b);
+      go("dr_exp", t, a);
+      go("dl_exp", t, a);
+      go("dr_expinv", t, al);
+      go("dl_expinv", t, al);
+      go("rplus", t, g1.coeffs(), c);
       {
         const G gm = g1 * G::exp(al);
-        Line<S>(f, "rminus", gname).v(gm.coeffs()).v(g1.coeffs()).bar().v(gm - g1).end(tag(i));
+        go("rminus", t, gm.coeffs(), g1.coeffs());
       }
-      Line<S>(f, "dr_rminus", gname).v(al).bar().v(smooth::dr_rminus<G>(al)).end(tag(i));
-      Line<S>(f, "dr_rminus_sqn", gname).v(al).bar().v(smooth::dr_rminus_squarednorm<G>(al)).end(tag(i));
-      if constexpr (HasHess<G>::value) {
-        Line<S>(f, "d2r_exp", gname).v(a).bar().v(G::d2r_exp(a)).end(tag(i));
-        Line<S>(f, "d2l_exp", gname).v(a).bar().v(G::d2l_exp(a)).end(tag(i));
-        Line<S>(f, "d2r_expinv", gname).v(al).bar().v(G::d2r_expinv(al)).end(tag(i));
-        Line<S>(f, "d2l_expinv", gname).v(al).bar().v(G::d2l_expinv(al)).end(tag(i));
-        Line<S>(f, "d2r_rminus", gname).v(al).bar().v(smooth::d2r_rminus<G>(al)).end(tag(i));
-        Line<S>(f, "d2r_rminus_sqn", gname).v(al).bar().v(smooth::d2r_rminus_squarednorm<G>(al)).end(tag(i));
-      }
+      go("dr_rminus", t, al);
+      go("dr_rminus_sqn", t, al);
+      go("d2r_exp", t, a);
+      go("d2l_exp", t, a);
+      go("d2r_expinv", t, al);
+      go("d2l_expinv", t, al);
+      go("d2r_rminus", t, al);
+      go("d2r_rminus_sqn", t, al);
     }
   }
 };
 
-// Hessians exist only where every non-commutative Impl provides d2r_exp: probe by concept
 template<class G>
 void run_group(FILE * f, Rng & r, int n)
 {
@@ -262,7 +429,6 @@ void run_group(FILE * f, Rng & r, int n)
   e.run(n);
 }
 
-// group actions and dr_action (public classes)
 template<class G, int NV>
 void run_action(FILE * f, Rng & r, int n)
 {
@@ -272,11 +438,11 @@ void run_action(FILE * f, Rng & r, int n)
     const G g = e.elem(i);
     Eigen::Matrix<S, NV, 1> v;
     for (int k = 0; k < NV; ++k) v(k) = S(gen_trans(r, i));
-    Line<S>(f, "act", e.gname).v(g.coeffs()).v(v).bar().v(g * v).end(e.tag(i));
-    if constexpr (requires { g.dr_action(v); }) {
-      if constexpr (!std::is_same_v<G, smooth::SO2<S>> && !std::is_same_v<G, smooth::SE2<S>>) {
-        Line<S>(f, "dr_action", e.gname).v(g.coeffs()).v(v).bar().v(g.dr_action(v)).end(e.tag(i));
-      }
+    for (const char * op : {"act", "dr_action"}) {
+      std::vector<S> x, out;
+      put(x, g.coeffs());
+      put(x, v);
+      if (eval_action<G, NV>(op, x, out)) emit<S>(f, op, e.gname, x, out, e.tag(i));
     }
   }
 }
@@ -324,58 +490,207 @@ void run_helpers(FILE * f, Rng & r, int n)
   }
 }
 
-template<class S>
-void family(FILE * f, Rng & r, int n)
+// The catalogue of instantiated types of this FAMILY, visited by generation and by eval mode.
+template<class S, class V>
+void catalogue(V && visit)
 {
   using namespace smooth;
   using V1 = Eigen::Matrix<S, 1, 1>;
   using V2 = Eigen::Matrix<S, 2, 1>;
   using V3 = Eigen::Matrix<S, 3, 1>;
   using V4 = Eigen::Matrix<S, 4, 1>;
+  (void)sizeof(V1); (void)sizeof(V2); (void)sizeof(V3); (void)sizeof(V4);
+#if FAMILY == 0
+  visit.template group<SO2<S>>();
+  visit.template group<SO3<S>>();
+  visit.template group<SE2<S>>();
+  visit.template group<C1<S>>();
+  visit.template action<SO2<S>, 2>();
+  visit.template action<C1<S>, 2>();
+  visit.template action<SO3<S>, 3>();
+  visit.template action<SE2<S>, 2>();
+#elif FAMILY == 1
+  visit.template group<SE3<S>>();
+  visit.template action<SE3<S>, 3>();
+#elif FAMILY == 2
+  visit.template group<Galilei<S>>();
+  visit.template action<Galilei<S>, 4>();
+  visit.template group<SE_K_3<S, 1>>();
+  visit.template group<SE_K_3<S, 2>>();
+  visit.template group<SE_K_3<S, 3>>();
+#elif FAMILY == 3
+  visit.template group<Bundle<SO3<S>>>();
+  visit.template group<Bundle<V2, SE2<S>>>();
+  visit.template group<Bundle<SE2<S>, V2>>();
+  visit.template group<Bundle<SO2<S>, SO2<S>, SO2<S>>>();
+  visit.template group<Bundle<V1, V3>>();
+  visit.template group<Bundle<C1<S>, V1, SO3<S>, SO2<S>>>();
+#elif FAMILY == 4
+  visit.template group<Bundle<SE3<S>, V3, SO3<S>>>();
+  visit.template group<Bundle<Bundle<SO3<S>, V3>, SE2<S>>>();
+  visit.template group<Bundle<V2, Bundle<SO2<S>, Bundle<SE3<S>, V1>>>>();
+#elif FAMILY == 5
+  visit.template group<Bundle<Galilei<S>, V4>>();
+  visit.template group<Bundle<SE_K_3<S, 2>, SO3<S>>>();
+#endif
+}
+
+template<class S>
+struct GenVisitor
+{
+  FILE * f;
+  Rng & r;
+  int n;
+  template<class G>
+  void group()
+  {
+    run_group<G>(f, r, n);
+  }
+  template<class G, int NV>
+  void action()
+  {
+    run_action<G, NV>(f, r, n);
+  }
+};
+
+template<class S>
+struct EvalVisitor
+{
+  const std::string & op;
+  const std::string & grp;
+  const std::vector<S> & x;
+  std::vector<S> & out;
+  bool done = false;
+  template<class G>
+  void group()
+  {
+    if (!done && op != "act" && op != "dr_action" && Gen<G>::name() == grp) {
+      out.clear();
+      done = eval_group<G>(op, x, out);
+    }
+  }
+  template<class G, int NV>
+  void action()
+  {
+    if (!done && (op == "act" || op == "dr_action") && Gen<G>::name() == grp) {
+      out.clear();
+      done = eval_action<G, NV>(op, x, out);
+    }
+  }
+};
+
+template<class S>
+bool eval_helper(const std::string & op, const std::string & grp, const std::vector<S> & x, std::vector<S> & out)
+{
+#if FAMILY == 0
+  using V3 = Eigen::Matrix<S, 3, 1>;
+  Args<S> A{x};
+  if (grp == "-" && x.size() == 1) {
+    if (op == "cos_2") out.push_back(smooth::detail::cos_2(x[0]));
+    else if (op == "sin_3") out.push_back(smooth::detail::sin_3(x[0]));
+    else if (op == "cos_4") out.push_back(smooth::detail::cos_4(x[0]));
+    else if (op == "sin_5") out.push_back(smooth::detail::sin_5(x[0]));
+    else if (op == "cos_6") out.push_back(smooth::detail::cos_6(x[0]));
+    else return false;
+    return true;
+  }
+  if (op == "calc_S1" && grp == "SO3") { put(out, smooth::SO3Impl<S>::calc_S1(A.template vec<V3>())); return A.done(); }
+  if (op == "calc_S2" && grp == "SO3") { put(out, smooth::SO3Impl<S>::calc_S2(A.template vec<V3>())); return A.done(); }
+  if (op == "calc_S1inv" && grp == "SO3") { put(out, smooth::SO3Impl<S>::calc_S1inv(A.template vec<V3>())); return A.done(); }
+  if (op == "calculate_q" && grp == "SE3") {
+    const V3 v = A.template vec<V3>(), w = A.template vec<V3>();
+    put(out, smooth::SE3Impl<S>::calculate_q(v, w));
+    return A.done();
+  }
+  if (op == "calculate_r" && grp == "GAL") {
+    const V3 v = A.template vec<V3>(), w = A.template vec<V3>();
+    put(out, smooth::GalileiImpl<S>::calculate_r(v, w));
+    return A.done();
+  }
+#else
+  (void)op; (void)grp; (void)x; (void)out;
+#endif
+  return false;
+}
+
+template<class S>
+void family(FILE * f, Rng & r, int n)
+{
 #if FAMILY == 0
   run_trig<S>(f, r, n);
   run_helpers<S>(f, r, n);
-  run_group<SO2<S>>(f, r, n);
-  run_group<SO3<S>>(f, r, n);
-  run_group<SE2<S>>(f, r, n);
-  run_group<C1<S>>(f, r, n);
-  run_action<SO2<S>, 2>(f, r, n);
-  run_action<C1<S>, 2>(f, r, n);
-  run_action<SO3<S>, 3>(f, r, n);
-  run_action<SE2<S>, 2>(f, r, n);
-#elif FAMILY == 1
-  run_group<SE3<S>>(f, r, n);
-  run_action<SE3<S>, 3>(f, r, n);
-#elif FAMILY == 2
-  run_group<Galilei<S>>(f, r, n);
-  run_action<Galilei<S>, 4>(f, r, n);
-  run_group<SE_K_3<S, 1>>(f, r, n);
-  run_group<SE_K_3<S, 2>>(f, r, n);
-  run_group<SE_K_3<S, 3>>(f, r, n);
-#elif FAMILY == 3
-  run_group<Bundle<SO3<S>>>(f, r, n);
-  run_group<Bundle<V2, SE2<S>>>(f, r, n);
-  run_group<Bundle<SE2<S>, V2>>(f, r, n);
-  run_group<Bundle<SO2<S>, SO2<S>, SO2<S>>>(f, r, n);
-  run_group<Bundle<V1, V3>>(f, r, n);
-  run_group<Bundle<C1<S>, V1, SO3<S>, SO2<S>>>(f, r, n);
-#elif FAMILY == 4
-  run_group<Bundle<SE3<S>, V3, SO3<S>>>(f, r, n);
-  run_group<Bundle<Bundle<SO3<S>, V3>, SE2<S>>>(f, r, n);
-  run_group<Bundle<V2, Bundle<SO2<S>, Bundle<SE3<S>, V1>>>>(f, r, n);
-#elif FAMILY == 5
-  run_group<Bundle<Galilei<S>, V4>>(f, r, n);
-  run_group<Bundle<SE_K_3<S, 2>, SO3<S>>>(f, r, n);
-  (void)sizeof(V4);
 #endif
-  (void)sizeof(V1);
-  (void)sizeof(V2);
-  (void)sizeof(V3);
-  (void)sizeof(V4);
+  catalogue<S>(GenVisitor<S>{f, r, n});
+}
+
+// eval mode: request lines on stdin (`op grp prec hex…`, anything after " |" ignored) are
+// evaluated by the implementation; lines whose group/op this binary does not serve are echoed
+// with the reply `SKIP`.
+template<class S>
+S parse_word(const std::string & w)
+{
+  if constexpr (std::is_same_v<S, double>) {
+    uint64_t u = std::strtoull(w.c_str(), nullptr, 16);
+    double d;
+    std::memcpy(&d, &u, 8);
+    return d;
+  } else {
+    uint32_t u = uint32_t(std::strtoul(w.c_str(), nullptr, 16));
+    float d;
+    std::memcpy(&d, &u, 4);
+    return d;
+  }
+}
+
+template<class S>
+void eval_line(const std::string & op, const std::string & grp, const std::vector<std::string> & words, const std::string & tag)
+{
+  std::vector<S> x, out;
+  for (auto & w : words) x.push_back(parse_word<S>(w));
+  bool ok = eval_helper<S>(op, grp, x, out);
+  if (!ok) {
+    EvalVisitor<S> v{op, grp, x, out};
+    catalogue<S>(v);
+    ok = v.done;
+  }
+  if (ok) emit<S>(stdout, op.c_str(), grp, x, out, tag.empty() ? nullptr : tag.c_str());
+  else std::printf("SKIP %s %s\n", op.c_str(), grp.c_str());
+}
+
+int eval_mode()
+{
+  char * line = nullptr;
+  size_t cap  = 0;
+  while (getline(&line, &cap, stdin) > 0) {
+    std::string s(line);
+    while (!s.empty() && (s.back() == '\n' || s.back() == '\r')) s.pop_back();
+    std::string tag;
+    auto h = s.find(" # ");
+    if (h != std::string::npos) { tag = s.substr(h + 3); s = s.substr(0, h); }
+    auto bar = s.find(" |");
+    if (bar != std::string::npos) s = s.substr(0, bar);
+    std::vector<std::string> t;
+    size_t p = 0;
+    while (p < s.size()) {
+      while (p < s.size() && s[p] == ' ') ++p;
+      size_t q = p;
+      while (q < s.size() && s[q] != ' ') ++q;
+      if (q > p) t.push_back(s.substr(p, q - p));
+      p = q;
+    }
+    if (t.size() < 3) { std::printf("SKIP bad-line\n"); continue; }
+    std::vector<std::string> words(t.begin() + 3, t.end());
+    if (t[2] == "f64") eval_line<double>(t[0], t[1], words, tag);
+    else if (t[2] == "f32") eval_line<float>(t[0], t[1], words, tag);
+    else std::printf("SKIP bad-prec\n");
+  }
+  std::free(line);
+  return 0;
 }
 
 int main(int argc, char ** argv)
 {
+  if (argc > 1 && std::string(argv[1]) == "eval") return eval_mode();
   const int n = argc > 1 ? std::atoi(argv[1]) : 30;
   Rng r(seed_from_env() * 1000 + FAMILY);
   family<double>(stdout, r, n);
